@@ -2,7 +2,7 @@
    All theorems hold for every interpreter (lm, lu), hence also with native overrides installed. *)
 From Coq Require Import List Bool.
 From Minidyn Require Import Base.Str Base.FMap Base.Outcome Model.Value Model.Key Model.Index Model.Table Model.Client.
-From Minidyn Require Import Proofs.FMapFacts Proofs.TableInv Proofs.KV Proofs.ClientInv.
+From Minidyn Require Import Proofs.FMapFacts Proofs.TableInv Proofs.KV Proofs.ClientInv Proofs.ClientFacts.
 Import ListNotations.
 
 (* SortedKeys is exactly the strictly sorted, duplicate-free key set of Data in every reachable state *)
@@ -59,3 +59,22 @@ Theorem C01_delete_absent_noop :
     get_key (t_ks t) (t_defs t) k = inr key -> lookup key (t_data t) = None ->
     t_delete lm c t k None names vals = (t, WOk None []).
 Proof. exact delete_absent_noop. Qed.
+
+(* PutItem reports the item it replaced, which is the item the map semantics holds under the key before the write
+   (nothing when the key held nothing), and the client hands it out only when ReturnValues = ALL_OLD asks for it
+   (fix e014a0c: it used to answer the item just written, whatever was asked) *)
+Theorem C01_put_returns_replaced :
+  forall lm c t it cond names vals t' old f,
+    t_put lm c t it cond names vals = (t', WOk old f) ->
+    exists key, get_key (t_ks t) (t_defs t) it = inr key /\ old = lookup key (t_data t).
+Proof. exact put_returns_replaced. Qed.
+
+Theorem C01_put_item_payload :
+  forall lm sdk c tn it cond names vals ro,
+    o_res (snd (put_item lm sdk c tn it cond names vals ro)) = ROk ->
+    exists t old,
+      lookup tn (c_tables c) = Some t /\
+      (exists t' f, t_put lm (ctx_of c) t it cond names vals = (t', WOk old f)) /\
+      o_pay (snd (put_item lm sdk c tn it cond names vals ro)) =
+      match old with Some i => if ro then PItem (out_item sdk i) else PNone | None => PNone end.
+Proof. exact put_item_payload. Qed.
